@@ -131,6 +131,39 @@ theorem deductFees_feeRel (cfg : Config) (s s1 : State π) (payer : Addr) (gas :
         refine ⟨?_, h⟩
         simpa [upd_other _ _ _ _ hcp] using hn
 
+omit [DecidableEq π] in
+theorem deductFees_payable (cfg : Config) (s s1 : State π) (payer : Addr) (gas : Bool) (amt : Nat)
+    (h : deductFees cfg s payer gas amt = .ok s1) :
+    ∃ a, s.accounts payer = some a ∧ amt ≤ (if gas = true then a.coins else 0) := by
+  unfold deductFees at h
+  cases ha : s.accounts payer with
+  | none => simp [ha] at h
+  | some a =>
+  simp only [ha] at h
+  by_cases hb : (if gas = true then a.coins else 0) < amt
+  · simp [hb] at h
+  exact ⟨a, rfl, Nat.le_of_not_lt hb⟩
+
+omit [DecidableEq π] in
+theorem phase2_payable (cfg : Config) (s : State π) (tx : Tx π σ) (r0 : Resolved π) (s1 : State π)
+    (r0' : Resolved π) (h : phase2 cfg s tx r0 = .ok (s1, r0')) :
+    tx.fee.amount = 0 ∨
+    ∃ a, s.accounts r0.addr = some a ∧ tx.fee.amount ≤ (if tx.fee.gas = true then a.coins else 0) := by
+  by_cases h0 : tx.fee.amount = 0
+  · exact .inl h0
+  right
+  unfold phase2 at h
+  simp only [] at h
+  split at h
+  · cases h
+  simp only [h0, if_false] at h
+  split at h
+  · cases h
+  split at h
+  · cases h
+  rename_i s1' hfee
+  exact deductFees_payable cfg s s1' r0.addr tx.fee.gas tx.fee.amount hfee
+
 /-- What phase 2 returns. -/
 structure Phase2Ok (cfg : Config) (s : State π) (r0 : Resolved π) (s1 : State π) (r0' : Resolved π) : Prop where
   rel : FeeRel cfg.collector s s1
